@@ -93,12 +93,15 @@ def check_body(body):
 def run_case(case):
     kind = case[0]
     if kind == "enum":
-        _, size, depth, idx, n = case
+        _, size, depth, idx, n = case[:5]
+        stride = case[5] if len(case) > 5 else 1
         out = []
         i = 0
         for b in gen_scope.c06_seqs(size, depth, {}):
             i += 1
             if i % n != idx:
+                continue
+            if stride > 1 and (i // n) % stride:
                 continue
             res = check_body(b)
             res.setdefault("cov", {})["enum_size_%d" % size] = 1
@@ -147,7 +150,7 @@ def main(tier, seed, replay=None):
         return replay_file(replay)
     common.ensure_worker("chk")
     run = common.Run(PROP, tier, seed)
-    max_size = 4 if tier == "quick" else 6
+    max_size = 5 if tier == "quick" else 6
     depth = 4
     n = common.NPROC
     cases = []
@@ -155,6 +158,10 @@ def main(tier, seed, replay=None):
         shards = 1 if size <= 2 else n
         for idx in range(shards):
             cases.append(("enum", size, depth, idx, shards))
+    if tier == "quick":
+        # a 1-in-25 sample of the 6-node trees (all of them in thorough)
+        for idx in range(n):
+            cases.append(("enum", 6, depth, idx, n, 25))
     nrand = 1500 if tier == "quick" else 40000
     cases += [("random", seed, i) for i in range(nrand)]
     for r in common.run_sharded(run_case, cases):
@@ -165,7 +172,7 @@ def main(tier, seed, replay=None):
         "naked `if` as then-branch is generated without an outer else (otherwise the text would parse as a different tree)",
     ]
     return run.finish(
-        rule="exhaustive: all statement lists with <= %d nodes, depth <= %d, over {x=x+k, loop, goto l, label, block, if with then/else in "
+        rule="exhaustive: all statement lists with <= %d nodes (quick: plus every 25th list with 6 nodes), depth <= %d, over {x=x+k, loop, goto l, label, block, if with then/else in "
              "{goto, block, naked assignment, naked loop, naked/else if}}; plus %d random concatenations. distinct_nontrivial = distinct "
              "(verdict, tree shape)" % (max_size, depth, nrand),
         exhaustive=True, min_evaluations=1000)
